@@ -80,6 +80,17 @@ def _observe(job):
     try:
         np.random.seed(seed)
         m = fac(X)
+        if seed % 3 == 1:
+            # a third of the models are instances with a past: fitted to a narrower sample lying to the right of this one and queried
+            try:
+                old = X[: max(5, len(X) // 3)] * 0.2 + (np.max(X) + 1.0)
+                m.fit(old.copy())
+                m.cumulative_distribution(old[:3].copy())
+                m.percent_point(np.array([0.3, 0.6]))
+                m.probability_density(old[:3].copy())
+                m.sample(2)
+            except Exception:
+                pass
         try:
             if seed % 2:        # the copula hands columns over as pandas Series: fit through a Series whose index is not 0..n-1
                 import pandas as pd
